@@ -18,7 +18,7 @@ pub static DEF: PropDef = PropDef {
     id: "C02",
     level: "exploration",
     engine: "meta-cas",
-    rule: "one run = 2..4 real ObjectStoreMetadataClients executing 3..8 generated register/delete/complete_compaction/read ops each on one simulated store, every object-store request a scheduling point chosen by the seeded scheduler (plus injected request failures before/after effect and delays in 2/3 of runs); distinct = distinct hash of the (node, request kind, object class, fault) grant sequence; non-trivial = workload completed AND (requests of >=2 nodes interleaved inside an operation OR >=1 fault fired)",
+    rule: "one run = (one in five: on a store that starts in the legacy two-file layout without catalog.json) 2..4 real ObjectStoreMetadataClients executing 3..8 generated register/delete/complete_compaction/read ops each on one simulated store, every object-store request a scheduling point chosen by the seeded scheduler (plus injected request failures before/after effect and delays in 2/3 of runs); distinct = distinct hash of the (node, request kind, object class, fault) grant sequence; non-trivial = workload completed AND (requests of >=2 nodes interleaved inside an operation OR >=1 fault fired)",
     quick_runs: 15000,
     thorough_runs: 150_000,
     run_cap_ms: 20_000,
@@ -47,6 +47,11 @@ struct OpRec {
     ok: bool,
     err: String,
     read: Option<Vec<String>>,
+}
+
+thread_local! {
+    /// catalog content the run starts from (empty, or what the legacy layout holds)
+    static INITIAL: std::cell::RefCell<CatModel> = std::cell::RefCell::new(CatModel::default());
 }
 
 fn scen(spec: RunSpec) -> ScenFut {
@@ -85,6 +90,42 @@ fn scen(spec: RunSpec) -> ScenFut {
         let base = sim::EPOCH_NS as i64;
         // generate workloads up front
         let mut all_paths: Vec<String> = Vec::new();
+        // one run in five starts on a store in the legacy two-file layout (metadata.json + time-index.json, no
+        // catalog.json): an upgraded deployment. The first mutations race for the creation of catalog.json from it.
+        let mut initial = CatModel::default();
+        if !no_cas && sim::w(5) == 4 {
+            let setup = raw_client(&inner);
+            for k in 0..sim::w_range(1, 3) {
+                let path = format!("legacy/c{k}.parquet");
+                let min = base - (k as i64 + 1) * HOUR;
+                let _ = setup.register_chunk(&path, &chunk_meta(&path, min, min + HOUR / 2, 10, 100)).await;
+                all_paths.push(path);
+            }
+            let ok = match setup.load_chunk_metadata().await {
+                Ok(m) => setup.save_chunk_metadata(&m).await.is_ok() && setup.rebuild_time_index().await.is_ok(),
+                Err(_) => false,
+            };
+            let listing = crate::core::store::raw_list(&inner).await;
+            let cat = listing.iter().map(|x| x.0.clone()).find(|p| p.ends_with("catalog.json")).unwrap_or_default();
+            let cat = object_store::path::Path::parse(&cat).unwrap_or_else(|_| object_store::path::Path::from("none"));
+            if ok {
+                if let Ok(g) = inner.get(&cat).await {
+                    if let Ok(b) = g.bytes().await {
+                        if let Ok(m) = CatModel::parse(&b) {
+                            if inner.delete(&cat).await.is_ok() {
+                                initial = m;
+                                sim::probe("store-in-the-legacy-two-file-layout");
+                            }
+                        }
+                    }
+                }
+            }
+            if initial.chunks.is_empty() {
+                sim::with(|st| st.abort = Some("legacy set-up failed".into()));
+                return;
+            }
+        }
+        INITIAL.with(|i| *i.borrow_mut() = initial.clone());
         let mut plans: Vec<Vec<Op>> = Vec::new();
         for n in 0..nodes {
             let k = if starve { if n == 0 { 2 } else { 30 } } else { sim::w_range(3, 8) };
@@ -226,7 +267,7 @@ async fn check(inner: &Arc<InMemory>, recs: &[OpRec], no_cas: bool) {
         return;
     }
     // chain check
-    let mut prev = CatModel::default();
+    let mut prev = INITIAL.with(|i| i.borrow().clone());
     let mut owned: Vec<u32> = vec![0; recs.len()];
     let mut models: Vec<CatModel> = vec![prev.clone()];
     for v in &versions {
